@@ -468,7 +468,7 @@ void model_dispatch(lp_id_t me, simtime_t now, unsigned type, const void *conten
 			budget = 1;
 		s->budget = budget;
 		s->limit = P.m_absorbing ? budget : budget + (uint32_t)P.m_extra;
-		if(P.m_rng) {
+		if(P.m_rng && P.m_rng_init) {
 			s->init_draws[0] = dbits(Random());
 			s->init_draws[1] = RandomU64();
 		}
